@@ -33,7 +33,7 @@ var profC01 = &hist.Profile{
 	Name: "C01", MinOps: 10, MaxOps: 40, Topics: 3, Subs: 4,
 	W: map[string]int{
 		hist.OpPublish: 18, hist.OpPull: 20, hist.OpAck: 9, hist.OpModAck: 5, hist.OpNack: 4, hist.OpStreamAck: 1, hist.OpAdvance: 16,
-		hist.OpSeekTime: 3, hist.OpSnapshot: 4, hist.OpSeekSnap: 5, hist.OpJob: 5, hist.OpSweep: 3, hist.OpExpireSubs: 1, hist.OpStream: 2,
+		hist.OpSeekTime: 3, hist.OpSnapshot: 4, hist.OpSeekSnap: 5, hist.MacroSnapRoundtrip: 1, hist.OpJob: 5, hist.OpSweep: 3, hist.OpExpireSubs: 1, hist.OpStream: 2,
 		hist.OpCreateSub: 6, hist.OpDeleteSub: 2, hist.OpCreateTopic: 2, hist.OpDeleteTopic: 1, hist.OpUpdateSub: 2, hist.OpGetSub: 1,
 	},
 	Ordered: 30, Keys: []string{"", "", "K1", "K2"}, Filters: hist.DefaultFilters,
@@ -72,7 +72,7 @@ var profC02 = &hist.Profile{
 	Name: "C02", MinOps: 10, MaxOps: 40, Topics: 3, Subs: 5,
 	W: map[string]int{
 		hist.OpPublish: 22, hist.OpPull: 24, hist.OpAck: 9, hist.OpModAck: 4, hist.OpNack: 3, hist.OpAdvance: 12,
-		hist.OpSeekTime: 3, hist.OpSweep: 2, hist.OpJob: 2, hist.OpSnapshot: 5, hist.OpSeekSnap: 6, hist.OpStream: 2,
+		hist.OpSeekTime: 3, hist.OpSweep: 2, hist.OpJob: 2, hist.OpSnapshot: 5, hist.OpSeekSnap: 6, hist.MacroSnapRoundtrip: 1, hist.OpStream: 2,
 		hist.OpCreateSub: 9, hist.OpDeleteSub: 2, hist.OpCreateTopic: 2, hist.OpDeleteTopic: 1, hist.OpUpdateSub: 3,
 	},
 	Ordered: 20, Keys: []string{"", "", "K1", "ключ", "k 2"}, Filters: hist.DefaultFilters,
@@ -210,7 +210,7 @@ func TestC06(t *testing.T) {
 var profC13 = &hist.Profile{
 	Name: "C13", MinOps: 10, MaxOps: 40, Topics: 2, Subs: 3,
 	W: map[string]int{
-		hist.OpPublish: 18, hist.OpPull: 20, hist.OpAck: 14, hist.OpAdvance: 8, hist.OpSeekTime: 12, hist.OpSnapshot: 7, hist.OpSeekSnap: 9,
+		hist.OpPublish: 18, hist.OpPull: 20, hist.OpAck: 14, hist.OpAdvance: 8, hist.OpSeekTime: 12, hist.OpSnapshot: 7, hist.OpSeekSnap: 9, hist.MacroSnapRoundtrip: 2,
 		hist.OpDelSnapshot: 1, hist.OpCreateSub: 4, hist.OpModAck: 2, hist.OpNack: 2,
 	},
 	Ordered: 20, Keys: []string{"", "K1"}, Filters: []string{"", "", `attributes:x`},
@@ -246,7 +246,7 @@ var profC14 = &hist.Profile{
 	Name: "C14", MinOps: 10, MaxOps: 35, Topics: 2, Subs: 4,
 	W: map[string]int{
 		hist.OpPublish: 16, hist.OpPull: 24, hist.OpAck: 8, hist.OpAdvance: 28, hist.OpExpireSubs: 8, hist.OpSeekTime: 4, hist.OpSetDelay: 5,
-		hist.OpSnapshot: 3, hist.OpSeekSnap: 4,
+		hist.OpSnapshot: 3, hist.OpSeekSnap: 4, hist.MacroSnapRoundtrip: 3,
 		hist.OpCreateSub: 6, hist.OpUpdateSub: 3, hist.OpGetSub: 2, hist.OpJob: 2,
 	},
 	Filters: []string{"", "", `attributes:x`}, Retry: 50,
